@@ -125,6 +125,14 @@ HeaderContent == OO(<< <<"content", OO(<< <<"application/json", MtMin>> >>)>> >>
 ExOK == OO(<< <<"e", Min("example")>> >>)
 ExBad == OO(<< <<"e", OO(<< <<"value", N(1)>> >>)>> >>)
 
+(* schemas that refer back to themselves: only meaningful where the leaf is components.schemas.S itself.  Validate walks *)
+(* referenced schemas too and must come to an end on a cycle without losing what it finds on the way                    *)
+SelfRef == OO(<< <<"$ref", S(RefStr("schemas", Join(cNameS)))>> >>)
+OtherRef == OO(<< <<"$ref", S(RefStr("schemas", Join(cNameT)))>> >>)
+SelfRec == OO(<< <<"type", S("object")>>, <<"properties", OO(<< <<"p", SelfRef>> >>)>> >>)
+MutualRec == OO(<< <<"type", S("object")>>, <<"allOf", A(<<OtherRef>>)>> >>)
+BackComp == <<<<"schemas", Join(cNameT), OO(<< <<"type", S("object")>>, <<"properties", OO(<< <<"q", SelfRef>> >>)>> >>)>>>>
+SelfRefVars == {"self_recursive", "self_recursive_items", "mutual_recursive"}
 (* the variants that are only context-free directly under components.parameters *)
 PathOnlyVars == {"path_simple", "path_label", "path_matrix", "path_matrix_explode", "path_simple_explode", "path_not_required", "path_required_false", "path_form"}
 
@@ -233,6 +241,8 @@ Goods0(kind) ==
      [] kind = "encoding" -> {G("style", OO(<< <<"style", S("pipeDelimited")>>, <<"explode", B(FALSE)>> >>)),
                               G("deep", OO(<< <<"style", S("deepObject")>>, <<"explode", B(TRUE)>> >>))}
      [] kind = "schema" ->
+          {G("self_recursive", SelfRec), G("self_recursive_items", OO(<< <<"type", S("array")>>, <<"items", SelfRef>> >>)),
+           GC("mutual_recursive", MutualRec, BackComp)} \cup
           ModeGoods(PresentLeaves, SchWith) \cup
           {G("format_" \o f, With(TString, << <<"format", S(f)>> >>)) : f \in KnownFormats("string") \ {"date"}} \cup
           {G("empty", EmptyO),
@@ -388,6 +398,9 @@ Bads0(kind) ==
      [] kind = "encoding" -> {Bd("bad_style", "simple", OO(<< <<"style", S("simple")>> >>)),
                               Bd("bad_style", "deep_noexplode", OO(<< <<"style", S("deepObject")>>, <<"explode", B(FALSE)>> >>))}
      [] kind = "schema" ->
+          {Bd("default_mismatch", "self_recursive", With(SelfRec, << <<"default", N(1)>> >>)),
+           Bd("readonly_and_writeonly", "self_recursive_items", OO(<< <<"type", S("array")>>, <<"items", SelfRef>>, <<"readOnly", B(TRUE)>>, <<"writeOnly", B(TRUE)>> >>)),
+           BdC("example_mismatch", "mutual_recursive", With(MutualRec, << <<"example", N(1)>> >>), BackComp)} \cup
           ModeBads(PresentLeaves, SchWith) \cup
           {Bd("unknown_format", "int32_on_number", OO(<< <<"type", S("number")>>, <<"format", S("int32")>> >>)),
            Bd("unknown_format", "float_on_integer", With(TInteger, << <<"format", S("float")>> >>)),
